@@ -18,20 +18,24 @@ EXTRA_LEAN_MODULES = ["DirectVerif.Lemmas.TensorLiftC10",   # n-D corollaries (l
                       "DirectVerif.Lemmas.C10Modules",     # key plumbing, call histories, crop-shape forms of the k-space modules
                       "DirectVerif.Lemmas.C10Kspace",      # k-space crop/pad == image crop/pad over the C01 plans (abstract backend, 1-D, 2 axes)
                       "DirectVerif.Lemmas.C10KspaceDft"]   # … instantiated with the concrete DFT of C01 (Mathlib ZMod.dft)
-PENDING_FINDINGS: list[str] = ["cropkspace-crop-form-5d", "random-crop-sigma-singleton-list", "bbox-dtype-bool",
-                               "crop-to-largest-centring-ceil", "bbox-utils-twin-unrepaired"]
+PENDING_FINDINGS: list[str] = []
+# repaired in /repo (fix: commits f148874, ab63bde, 40ede8a, 7c09337, e6b69a8); the oracle keys stay and are quiet now:
+#   cropkspace-crop-form-5d, random-crop-sigma-singleton-list, crop-to-largest-centring-ceil, bbox-dtype-bool,
+#   bbox-utils-twin-unrepaired
 MANIFEST = {
     "text": "Lean 4 theorems over all sizes/parities: centre crop = central window at offset floor((n-s)/2); pad places data at "
             "floor((N-n)/2); pad followed by centre crop is the identity (1-D, one axis and two axes of n-D tensors); F.pad pair "
-            "order for any number of axes; bbox window specification for every box; crop_to_largest window (ceil convention, "
-            "violation witness for odd differences). The k-space transforms are plans regenerated from the source and interpreted "
+            "order for any number of axes; bbox window specification for every box; crop_to_largest = pad_tensor placement and "
+            "crop_to_largest followed by a centre crop is the identity for every difference; the padded patch of crop_to_bbox keeps "
+            "the element type. The k-space transforms are plans regenerated from the source and interpreted "
             "over the C01 fft2/ifft2 plans: CropKspace = fft2 . crop . ifft2 and PadKspace = fft2 . view_as_real . pad . "
             "view_as_complex . ifft2 are proved equivalent to cropping/padding the backprojected image for every lawful backend and "
             "all 8 flag combinations, CropKspace(PadKspace k) = k on the k-space itself, and all of it without hypotheses for the "
             "concrete DFT (Mathlib ZMod.dft) on one axis. Key plumbing (which sample key is read/written, helper functions "
             "followed through call-site bindings and defaults), absence of instance/class/module state writes, absence of in-place "
             "operations on inputs, resolution of every primitive reference to the modelled module, and the crop-shape rule for the "
-            "three argument forms of CropKspace are translated tables/kernels with decided predicates; history independence of "
+            "three argument forms of CropKspace (string = tuple for every rank and length) and the patch allocation of crop_to_bbox are "
+            "translated tables/kernels with decided predicates; history independence of "
             "stateless modules and the frame property (other k-space key untouched) are proved for the definitions the driver "
             "runs. Tied to the code by translated arithmetic (bridge lemmas closed by omega/decide) and exact differential "
             "correspondence on labelled tensors, including the module ops with an exact operator pair (flip).",
@@ -41,9 +45,9 @@ MANIFEST = {
             "n-D k-space statements with FFT operators are additionally checked on the implementation under tolerance. The "
             "view_as_complex/view_as_real pair is modelled as a regrouping of the trailing axis (pad acts on the axes before it). "
             "RescaleKspace's interpolation and PadCoilDimensionModule are covered by tables and history/key oracles only. "
-            "Partial: crop-shape agreement between string and tuple crops is proved only outside (5-D, 2 entries) "
-            "(crop_shape_string_partial; finding cropkspace-crop-form-5d); crop_to_largest centring only for even differences "
-            "(finding crop-to-largest-centring-ceil); dtype preservation is an oracle check (finding bbox-dtype-bool).",
+            "Pinned-tree defects are kept as `_pinned_violates` witnesses (pad order, string crop on 5-D data, crop_to_largest "
+            "centring, bool patch dtype, cached crop shape, default-key helper). Oracle-only: the one-element sigma list of "
+            "complex_random_crop, dtype preservation beyond the allocation table, the copy direct/utils/bbox.py.",
     "technique": "Lean 4 proof (omega/list induction/plan interpretation over abstract operators) + AST translation bridge and "
                  "decided structural tables + differential correspondence + history/option oracles on the real modules",
 }
